@@ -402,7 +402,10 @@ fn c14_tlsdesc_call_consistent() {
 fn c01_x86_64_plt_jumps_through_its_got_slot() {
     let plt: u64 = kani::any();
     let got: u64 = kani::any();
-    kani::assume(plt < (1 << 62));
+    // addresses below 2^62: the distance is then an ordinary signed number (RIP-relative arithmetic wraps
+    // modulo 2^64, so for addresses near the top of the address space "in reach" would have to be defined modulo
+    // 2^64 too -- an early version of this harness used an unbounded `got` and raised a false alarm there)
+    kani::assume(plt < (1 << 62) && got < (1 << 62));
     let mut buf = [0u8; 16];
     let r = ElfX86_64::write_plt_entry(&mut buf, got, plt);
     let ok = r.is_ok();
